@@ -219,6 +219,7 @@ class Requestant(httping.Parsent):
 
         if self.chunked:  # chunked takes precedence over length
             self.parms = odict()
+            self.trails = None  # not those of a previous message
             while True:  # parse all chunks here
                 if self.closed:  # connection closed prematurely
                     raise httping.PrematureClosure("Connection closed unexpectedly"
